@@ -17,9 +17,13 @@ Fault kinds (all ambient -- they act on process state, never on an operation's a
   gc              gc.collect()
   churn           allocate and drop a scheduler-chosen number of objects (moves id()/hash of new objects)
   clear_caches    jax.clear_caches() + equinox cache clear, only while every other thread is between operations
+  x64_flip        jax_enable_x64 is toggled ("float64 once x64 is enabled"), only while every thread is between
+                  operations; every operation builds what it uses after the flip and is compared with the
+                  reference table of the session precision in force when it started
   crash           an InjectedCrash(BaseException) is raised at a package source line inside an operation;
                   the operation is abandoned (as by KeyboardInterrupt / MemoryError) and everything
-                  that runs afterwards must still match the reference
+                  that runs afterwards must still match the reference; the caller usually retries the
+                  abandoned operation at once (as a user would)
 """
 
 from __future__ import annotations
@@ -35,9 +39,9 @@ import types
 from dataclasses import dataclass, field
 
 from seams import REAL_MONOTONIC, Seams
-from workload import Catalogue, digest_tree
+from workload import Catalogue, Pool, digest_tree, flatten_tree
 
-FAULT_KINDS = ("clock_jump", "reseed", "gc", "churn", "clear_caches", "crash")
+FAULT_KINDS = ("clock_jump", "reseed", "gc", "churn", "clear_caches", "x64_flip", "crash")
 
 
 class InjectedCrash(BaseException):
@@ -128,6 +132,7 @@ class _Caller:
     in_op: bool = False
     atomic: bool = False
     error: str | None = None
+    rng: random.Random | None = None
 
 
 TOOL_ID = 3  # sys.monitoring tool slot (0-5; 3 is unassigned by convention)
@@ -140,15 +145,20 @@ class Simulator:
         self.seams = seams
         self.root = package_root.rstrip("/") + "/"
         self.exclude = exclude
-        self.rng = random.Random(f"sched-{plan.seed}")
+        # Decisions are drawn from one PRNG stream *per operation execution* (seeded from plan seed, thread,
+        # operation key, its occurrence number in the thread and the attempt), not from one global stream:
+        # removing an unrelated operation during minimisation then leaves every other operation's
+        # pre-emptions, faults and crashes where they were.
+        self.seed = plan.seed
         self.events = hashlib.sha256()
         self.n_events = 0
         self.trace: list[tuple] = []  # kept in full only when record_trace
         self.record_trace = False
         self.callers = [_Caller(i, list(ops)) for i, ops in enumerate(plan.threads)]
         self.by_ident: dict[int, _Caller] = {}
-        self.results: list[tuple[int, int, str, str, str]] = []  # (thread, index, key, status, digest)
-        self.pool: dict = {}
+        self.results: list[tuple] = []  # (thread, index, key, status, digest, x64 at start, leaves or None)
+        self.pool = Pool(catalogue.pool_builders)
+        self.keep_outputs = False  # True: keep the flattened outputs so a caller can compare with tolerance
         self.all_done = threading.Event()
         self.crashes_left = plan.max_crashes if "crash" in plan.faults else 0
         self.stats = {
@@ -160,6 +170,7 @@ class Simulator:
             "ops_completed": 0,
             "ops_crashed": 0,
             "ops_raised": 0,
+            "retries": 0,
         }
         self.wall_cap = wall_cap
         self._monitoring = False
@@ -189,14 +200,15 @@ class Simulator:
         kinds = [k for k in self.plan.faults if k != "crash"]
         if not kinds:
             return
-        kind = self.rng.choice(kinds)
+        rng = cur.rng
+        kind = rng.choice(kinds)
         if kind == "clock_jump":
-            wall = self.rng.choice((-86400.0, -1.5, 0.001, 3.0, 3600.0, 3.2e7))
-            mono = self.rng.choice((0.0, 0.001, 5.0, 1e6))
+            wall = rng.choice((-86400.0, -1.5, 0.001, 3.0, 3600.0, 3.2e7))
+            mono = rng.choice((0.0, 0.001, 5.0, 1e6))
             self.seams.jump_clock(wall, mono)
             self._log("fault", kind, wall, mono)
         elif kind == "reseed":
-            v = self.rng.getrandbits(32)
+            v = rng.getrandbits(32)
             import numpy as np
 
             with self.seams.harness():
@@ -207,25 +219,35 @@ class Simulator:
             gc.collect()
             self._log("fault", kind)
         elif kind == "churn":
-            n = self.rng.choice((10, 1000, 50000))
+            n = rng.choice((10, 1000, 50000))
             junk = [object() for _ in range(n)]
             del junk
             self._log("fault", kind, n)
         elif kind == "clear_caches":
-            if any(c.in_op for c in self.callers if c is not cur) or cur.in_op:
+            if any(c.in_op for c in self.callers):
                 self._log("fault-skipped", kind)
                 return
             clear_all_caches()
             self._log("fault", kind)
+        elif kind == "x64_flip":
+            if any(c.in_op for c in self.callers):
+                self._log("fault-skipped", kind)
+                return
+            import jax
+
+            new = not bool(jax.config.jax_enable_x64)
+            with self.seams.harness():
+                jax.config.update("jax_enable_x64", new)
+            self._log("fault", kind, new)
         self.stats["faults"][kind] += 1
 
     def yield_point(self, cur: _Caller, kind: str, site: str):
         """A scheduling decision: maybe a fault, then choose who runs next."""
         self.stats["decisions"] += 1
-        if self.plan.p_fault and self.rng.random() < self.plan.p_fault:
+        if self.plan.p_fault and cur.rng.random() < self.plan.p_fault:
             self._inject_fault(cur, site)
         runnable = self._runnable()
-        nxt = self.rng.choice(runnable) if runnable else None
+        nxt = cur.rng.choice(runnable) if runnable else None
         self._log("yield", kind, cur.idx, site, None if nxt is None else nxt.idx)
         if nxt is None:
             self.all_done.set()
@@ -240,7 +262,7 @@ class Simulator:
         if c is None or not c.in_op or c.atomic:
             return
         self.stats["line_events"] += 1
-        r = self.rng.random()
+        r = c.rng.random()
         if self.crashes_left and r < self.plan.p_crash:
             self.crashes_left -= 1
             self.stats["faults"]["crash"] += 1
@@ -275,49 +297,62 @@ class Simulator:
         c.event.wait()
         self.by_ident[threading.get_ident()] = c
         try:
+            seen: dict = {}
             for i, key in enumerate(c.ops):
                 op = self.cat.ops[key]
-                self.yield_point(c, "op-boundary", key)
-                self._log("op-start", c.idx, i, key)
-                c.in_op = True
-                c.atomic = op.atomic
-                status, dig = "ok", ""
-                try:
-                    out = op.fn(self.pool)
-                    c.atomic = True  # digesting is harness work, not package work
-                    dig = digest_tree(out)
-                except InjectedCrash:
-                    status = "crashed"
-                except Exception as e:  # noqa: BLE001 - recorded and compared with the reference
-                    status = "raised"
-                    dig = f"{type(e).__name__}"
-                finally:
-                    c.in_op = False
-                    c.atomic = False
-                self.stats[{"ok": "ops_completed", "crashed": "ops_crashed", "raised": "ops_raised"}[status]] += 1
-                self._log("op-end", c.idx, i, key, status)
-                self.results.append((c.idx, i, key, status, dig))
+                occ = seen[key] = seen.get(key, -1) + 1
+                attempt = 0
+                while True:
+                    c.rng = random.Random(f"{self.seed}|{c.idx}|{key}|{occ}|{attempt}")
+                    self.yield_point(c, "op-boundary", key)
+                    self._log("op-start", c.idx, i, key, attempt)
+                    import jax
+
+                    x64 = bool(jax.config.jax_enable_x64)
+                    c.in_op = True
+                    c.atomic = op.atomic
+                    status, dig, leaves = "ok", "", None
+                    try:
+                        out = op.fn(self.pool)
+                        c.atomic = True  # digesting is harness work, not package work
+                        dig = digest_tree(out)
+                        if self.keep_outputs:
+                            leaves = flatten_tree(out)
+                    except InjectedCrash:
+                        status = "crashed"
+                    except Exception as e:  # noqa: BLE001 - recorded and compared with the reference
+                        status = "raised"
+                        dig = f"{type(e).__name__}"
+                    finally:
+                        c.in_op = False
+                        c.atomic = False
+                    self.stats[{"ok": "ops_completed", "crashed": "ops_crashed", "raised": "ops_raised"}[status]] += 1
+                    self._log("op-end", c.idx, i, key, status)
+                    self.results.append((c.idx, i, key, status, dig, x64, leaves))
+                    if status == "crashed" and attempt == 0 and c.rng.random() < 0.7:
+                        attempt += 1  # the caller retries the abandoned operation, as a user would
+                        self.stats["retries"] += 1
+                        continue
+                    break
         except BaseException as e:  # harness failure, reported as such
             c.error = f"{type(e).__name__}: {e}"
         finally:
             c.done = True
+            c.rng = random.Random(f"{self.seed}|{c.idx}|exit")
             self.yield_point(c, "thread-exit", "")
 
     def run(self):
         """Returns (results, event_digest). Raises TimeoutError on a hang (harness error)."""
-        # shared pool: objects used concurrently by several callers, built before any caller starts
-        needed = sorted({k for ops in self.plan.threads for k in ops if self.cat.ops[k].uses_pool})
-        for k in needed:
-            g = self.cat.ops[k].group
-            if g not in self.pool:
-                self.pool[g] = self.cat.pool_builders[g]()
         self._log("plan", self.plan.seed, [len(t) for t in self.plan.threads], self.plan.p_line, self.plan.p_fault, self.plan.p_crash, tuple(self.plan.faults))
         for c in self.callers:
             c.thread = threading.Thread(target=self._caller_main, args=(c,), name=f"sim-caller-{c.idx}", daemon=True)
             c.thread.start()
+        import jax
+
+        x64_at_start = bool(jax.config.jax_enable_x64)
         self._start_monitoring()
         try:
-            first = self.rng.choice(self.callers)
+            first = random.Random(f"{self.seed}|start").choice(self.callers)
             self._log("start", first.idx)
             first.event.set()
             t0 = REAL_MONOTONIC()
@@ -327,6 +362,9 @@ class Simulator:
                     raise TimeoutError(f"simulated run {self.plan.seed} exceeded {self.wall_cap}s wall clock")
         finally:
             self._stop_monitoring()
+            if bool(jax.config.jax_enable_x64) != x64_at_start:
+                with self.seams.harness():
+                    jax.config.update("jax_enable_x64", x64_at_start)
         for c in self.callers:
             c.thread.join(timeout=5)
         errs = [f"caller {c.idx}: {c.error}" for c in self.callers if c.error]
